@@ -295,8 +295,12 @@ class _TraceHandle:
             self.depth += 1
             return self.local_trace_root
         if self.depth > 0:
-            # callables beneath a target (library or user callbacks)
-            return self.local_trace
+            # callables beneath a target: library code and user callbacks (defined by the harness);
+            # numpy/astropy internals are not stepped through — an interrupt inside them is
+            # indistinguishable from one at the calling library line
+            fn = code.co_filename
+            if self._is_lib(code) or "/sim/props/" in fn or "/sim/worlds/" in fn:
+                return self.local_trace
         return None
 
     def _line(self, frame):
